@@ -168,6 +168,52 @@ structure ChunkOk (c : ChunkWrite) : Prop where
   /-- a pre-sized filter is a whole number of blocks (`resizeBloomFilter(Size(n))`) -/
   presizedBlocks : c.presized % 32 = 0
 
+/-! ## pre-sizing by `WriteRowGroup` -/
+
+/-- MIRROR `ConcurrentRowGroupWriter.configureBloomFilters`, writer.go:901-931, for one column that has a
+    filter: `exact` = `chunkNumValuesIsExact(source chunk)`, `srcValues` = `source.NumValues()` (nulls
+    included), `numRows` = rows of the source row group, `maxRows` = `MaxRowsPerRowGroup` of the
+    writer, `repeated` = `maxRepetitionLevel > 0`. The result is `len(c.filter)` while the FIRST output
+    row group of this `WriteRowGroup` call is written (0 = left unallocated); `ColumnWriter.reset`
+    truncates the filter, so later output row groups of the same call are never pre-sized. -/
+def presize (bits : Nat) (exact : Bool) (srcValues numRows maxRows : Nat) (repeated : Bool) : Nat :=
+  if !exact then 0
+  else if numRows > maxRows then
+    if repeated then 0 else filterSize bits (min srcValues maxRows)
+  else filterSize bits srcValues
+
+theorem presize_whole_blocks (bits : Nat) (exact : Bool) (sv nr mr : Nat) (rep : Bool) :
+    presize bits exact sv nr mr rep % 32 = 0 := by
+  unfold presize filterSize
+  split
+  · rfl
+  · split
+    · split
+      · rfl
+      · exact Nat.mul_mod_right 32 _
+    · exact Nat.mul_mod_right 32 _
+
+/-- A pre-sized filter is large enough for the first output row group: if that group holds `n`
+    values, at most the source's count, and (for a non-repeated column) at most one per row of a group
+    of at most `maxRows` rows, then the filter has `bits` bits per value. -/
+theorem presize_capacity (bits : Nat) (exact : Bool) (sv nr mr : Nat) (rep : Bool) (n : Nat)
+    (hsv : n ≤ sv) (hrow : rep = false → n ≤ mr) (hpos : 0 < presize bits exact sv nr mr rep) :
+    n * bits ≤ 8 * presize bits exact sv nr mr rep := by
+  unfold presize at hpos ⊢
+  have cap : ∀ m, n ≤ m → n * bits ≤ 8 * filterSize bits m := by
+    intro m hm
+    have h1 := numSplitBlocksOf_capacity m bits
+    have h2 : n * bits ≤ m * bits := Nat.mul_le_mul_right bits hm
+    unfold filterSize; omega
+  split
+  · rename_i h; simp [h] at hpos
+  · split
+    · split
+      · rename_i h1 h2 h3; simp [h1, h2, h3] at hpos
+      · rename_i h3
+        exact cap _ (Nat.le_min.mpr ⟨hsv, hrow (by simpa using h3)⟩)
+    · exact cap _ hsv
+
 /-! ## storage, reading back, verbatim copy -/
 
 inductive Compression where
